@@ -174,7 +174,17 @@ func (in *instance) cmds() map[string]func(ts *testscript.TestScript, neg bool, 
 		},
 		"recordpid": func(ts *testscript.TestScript, neg bool, args []string) {
 			o := get(ts)
-			pid, _ := strconv.Atoi(strings.TrimSpace(ts.ReadFile(args[0])))
+			// the helper creates the file and then writes its pid: wait for the content
+			pid := 0
+			for deadline := time.Now().Add(10 * time.Second); pid <= 0 && time.Now().Before(deadline); {
+				pid, _ = strconv.Atoi(strings.TrimSpace(ts.ReadFile(args[0])))
+				if pid <= 0 {
+					time.Sleep(time.Millisecond)
+				}
+			}
+			if pid <= 0 {
+				ts.Fatalf("recordpid: %s never held a process id", args[0])
+			}
 			o.Pids = append(o.Pids, pid)
 		},
 		"deferlog": func(ts *testscript.TestScript, neg bool, args []string) {
